@@ -10,13 +10,24 @@ namespace Scanner
 
 /-- What every token-producing helper guarantees, relative to a reference scanner `s0`. -/
 def Good (s0 : Scanner) (r : Token × Scanner) : Prop :=
-  Adv s0 r.2 ∧ r.1.line = r.2.line ∧ r.1.kind ≠ .eof
+  Adv s0 r.2 ∧ (s0.line ≤ r.1.line ∧ r.1.line ≤ r.2.line) ∧ r.1.kind ≠ .eof
 
 theorem good_make {s0 s : Scanner} (h : Adv s0 s) {k : TokenKind} (hk : k ≠ .eof) :
-    Good s0 (s.makeToken k, s) := ⟨h, rfl, hk⟩
+    Good s0 (s.makeToken k, s) := ⟨h, ⟨h.line, Nat.le_refl _⟩, hk⟩
 
 theorem good_error {s0 s : Scanner} (h : Adv s0 s) (msg : String) :
-    Good s0 (s.errorToken msg, s) := ⟨h, rfl, by simp [errorToken]⟩
+    Good s0 (s.errorToken msg, s) := ⟨h, ⟨h.line, Nat.le_refl _⟩, by simp [errorToken]⟩
+
+/-- an error token made before the line end that the scanner has just consumed is counted (F51): the token keeps the line it was
+found on, the scanner moves to the next line -/
+theorem good_error_then_newline {s0 s : Scanner} (h : Adv s0 s) (msg : String) (c : Bool)
+    (hn : c = true → Adv s0 { s with line := s.line + 1 }) :
+    Good s0 (s.errorToken msg, if c then { s with line := s.line + 1 } else s) := by
+  cases c with
+  | false => exact good_error h msg
+  | true =>
+    refine ⟨hn rfl, ⟨h.line, ?_⟩, by simp [errorToken]⟩
+    simp [errorToken]
 
 theorem stringBody_good (n : Nat) : ∀ (s0 s : Scanner) (buf : List Char) (err : Option String),
     Adv s0 s → Good s0 (stringBody n s buf err) := by
@@ -32,16 +43,16 @@ theorem stringBody_good (n : Nat) : ∀ (s0 s : Scanner) (buf : List Char) (err 
       dsimp only
       split
       · exact good_error h1 _
-      · exact ⟨h1, rfl, by simp⟩
+      · exact ⟨h1, ⟨h1.line, Nat.le_refl _⟩, by simp⟩
     · next hq =>
       have h1 := h.trans (Adv.one hq)
       dsimp only
       have h2 := h1.trans (advance_adv _)
       split
-      · exact good_error h2 _
+      · exact good_error_then_newline h2 _ _ (fun hc => h1.trans (advance_newline_adv _ (by simpa using hc)))
       · split
         · exact good_error h2 _
-        · exact ⟨h2.setParens _, rfl, by simp⟩
+        · exact ⟨h2.setParens _, ⟨h2.line, Nat.le_refl _⟩, by simp⟩
     · next hq =>
       have h1 := h.trans (Adv.one hq)
       dsimp only
@@ -63,7 +74,7 @@ theorem stringBody_good (n : Nat) : ∀ (s0 s : Scanner) (buf : List Char) (err 
         split
         · next hh => rw [hh] at h3; exact ih _ _ _ _ h3
         · next hh => rw [hh] at h3; exact ih _ _ _ _ h3
-      · exact good_error h2 _
+      · exact good_error_then_newline h2 _ _ (fun hc => h1.trans (advance_newline_adv _ (by simpa using hc)))
     · next hq => exact ih _ _ _ _ (h.trans (Adv.newline hq))
     · next c _ _ _ _ hq => exact ih _ _ _ _ (h.trans (Adv.one (c := c) hq))
 
@@ -78,11 +89,13 @@ theorem keywordKind_ne_eof (t : String) : keywordKind t ≠ .eof := by
   repeat (first | exact (by decide) | apply ite_ne_of)
 
 theorem identifier_good {s0 s : Scanner} (h : Adv s0 s) : Good s0 s.identifier :=
-  ⟨h.trans (identTail_adv _ _), rfl, keywordKind_ne_eof _⟩
+  ⟨h.trans (identTail_adv _ _), ⟨(h.trans (identTail_adv _ _)).line, Nat.le_refl _⟩, keywordKind_ne_eof _⟩
 
 theorem number_good {s0 s : Scanner} (h : Adv s0 s) : Good s0 s.number := by
   unfold number
-  refine ⟨?_, rfl, by simp [makeToken]⟩
+  suffices hA : Adv s0 (s.number).2 by
+    exact ⟨hA, ⟨hA.line, Nat.le_refl _⟩, by simp [number, makeToken]⟩
+  unfold number
   have h1 := h.trans (digitsTail_adv (s.src.size + 1) s)
   dsimp only
   split
@@ -95,12 +108,12 @@ theorem number_good {s0 s : Scanner} (h : Adv s0 s) : Good s0 s.number := by
 theorem binaryToken_good {s0 s : Scanner} (h : Adv s0 s) {a b : TokenKind} (ha : a ≠ .eof)
     (hb : b ≠ .eof) : Good s0 (s.binaryToken a b) := by
   unfold binaryToken
-  refine ⟨h.trans (matchChar_adv _ _), rfl, ?_⟩
+  refine ⟨h.trans (matchChar_adv _ _), ⟨(h.trans (matchChar_adv _ _)).line, Nat.le_refl _⟩, ?_⟩
   simp only [makeToken]
   split <;> assumption
 
 theorem scanToken_spec (s : Scanner) :
-    Adv s (scanToken s).2 ∧ (scanToken s).1.line = (scanToken s).2.line ∧
+    Adv s (scanToken s).2 ∧ (s.line ≤ (scanToken s).1.line ∧ (scanToken s).1.line ≤ (scanToken s).2.line) ∧
     ((scanToken s).1.kind = .eof ∨ s.current < (scanToken s).2.current) := by
   unfold scanToken
   have hw := skipWhitespace_adv (s.src.size + 1) s
@@ -112,15 +125,15 @@ theorem scanToken_spec (s : Scanner) :
   · next s1 h1 =>
     have := advance_none h1
     subst this
-    exact ⟨hw', rfl, Or.inl rfl⟩
+    exact ⟨hw', ⟨hw'.line, Nat.le_refl _⟩, Or.inl rfl⟩
   · next c s1 h1 =>
     obtain ⟨hc, ha⟩ := advance_some h1
     have key : ∀ r : Token × Scanner, Good s1 r →
-        (Adv s r.2 ∧ r.1.line = r.2.line ∧ (r.1.kind = .eof ∨ s.current < r.2.current)) := by
+        (Adv s r.2 ∧ (s.line ≤ r.1.line ∧ r.1.line ≤ r.2.line) ∧ (r.1.kind = .eof ∨ s.current < r.2.current)) := by
       intro r hg
       have h1 := hw'.cur
       have h2 := hg.1.cur
-      exact ⟨(hw'.trans ha).trans hg.1, hg.2.1, Or.inr (by omega)⟩
+      exact ⟨(hw'.trans ha).trans hg.1, ⟨Nat.le_trans (hw'.trans ha).line hg.2.1.1, hg.2.1.2⟩, Or.inr (by omega)⟩
     apply key
     have r0 := Adv.refl s1
     split
